@@ -36,7 +36,11 @@ InM1(a) == a >= M1lo /\ a <= M1hi
 InF1(a) == a >= F1lo /\ a <= F1hi
 InF2(a) == a >= F2lo /\ a <= F2hi
 HasFunc(a) == InF1(a) \/ InF2(a)
-Rules == {"win_std", "win_ra", "fpo", "fpo_bp", "cfi"}
+Rules == {"win_std", "win_ra", "fpo", "fpo_bp", "cfi", "std_fpo", "std_cfi", "cfi_big"}
+\* std_fpo: the win_std frame-data record AND the fpo record cover F1: frame data is preferred, and FPO is not a fallback when it fails
+\* std_cfi: the win_std frame-data record AND the cfi record cover F1: STACK CFI is tried when STACK WIN fails
+\* cfi_big: STACK CFI INIT 100 100 .cfa: $esp 8 + .ra: .cfa 4 - ^ $ebx: 4294967296 $eax: 4294967296    (values that do not fit a 32-bit register: both
+\*          registers are unknown in the caller - eax, caller-saved and known in the context frame only, is never forwarded anyway)
 \* win_std: STACK WIN 4 100 100 0 0 c 0 0 0 1 $T0 $ebp = $eip $T0 4 + ^ = $ebp $T0 ^ = $esp $T0 8 + =      (parameter size 0xc)
 \* win_ra : STACK WIN 4 100 100 0 0 c 0 4 0 1 $T0 .raSearch = $eip $T0 ^ = $esp $T0 4 + =                  (locals 4)
 \* fpo    : STACK WIN 0 100 100 0 0 c 0 4 0 0 0                                                              (locals 4, no base pointer)
@@ -44,7 +48,7 @@ Rules == {"win_std", "win_ra", "fpo", "fpo_bp", "cfi"}
 \* cfi    : STACK CFI INIT 100 100 .cfa: $esp 8 + .ra: .cfa 4 - ^ $ebp: .cfa 8 - ^
 WinPsize == 12
 \* parameter size recorded on a frame by fill_symbol (a STACK WIN record's size wins over FUNC's); -1 = no function
-Psize(instr, r) == IF InF1(instr) THEN (IF r = "cfi" THEN 0 ELSE WinPsize) ELSE IF InF2(instr) THEN 8 ELSE -1
+Psize(instr, r) == IF InF1(instr) THEN (IF r \in {"cfi", "cfi_big"} THEN 0 ELSE WinPsize) ELSE IF InF2(instr) THEN 8 ELSE -1
 Vals == {0, A1, A2, A3, A4, Base + 8, Base + 12}
 VARIABLES mem, rule, frames, done, expect
 vars == <<mem, rule, frames, done, expect>>
@@ -57,20 +61,20 @@ SeemsValid(ip) == ip # 0 /\ LET x == ip - 1 IN x # 0 /\ InMod(x) /\ (InM1(x) => 
 Fwd(f) == f.valid \cap {"ebp", "ebx", "esi", "edi"}
 WinFwd(f) == IF WinClearNoop THEN Fwd(f) ELSE {}
 Gcps(k) == IF k >= 2 /\ frames[k - 1].psize >= 0 THEN frames[k - 1].psize ELSE 0
-ByCfi(f, k) ==
+ByRec(r, f, k) ==
   IF ~("esp" \in f.valid) THEN None
   ELSE IF ~InF1(f.instr) THEN None
   ELSE LET g == Gcps(k)  hasGrand == k >= 2 IN
-   CASE rule = "win_std" ->
+   CASE r = "win_std" ->
           IF ~("ebp" \in f.valid) THEN None
           ELSE IF ~(Readable(f.bp + 4) /\ Readable(f.bp)) THEN None
           ELSE [ip |-> Rd(f.bp + 4), sp |-> f.bp + 8, bp |-> Rd(f.bp), bx |-> f.bx, valid |-> WinFwd(f) \cup {"eip", "esp", "ebp"}, trust |-> "cfi"]
-     [] rule = "win_ra" ->
+     [] r = "win_ra" ->
           IF ~("ebp" \in f.valid) THEN None
           ELSE LET ra == f.sp + 4 + g IN
                IF ~Readable(ra) THEN None
                ELSE [ip |-> Rd(ra), sp |-> ra + 4, bp |-> f.bp, bx |-> f.bx, valid |-> WinFwd(f) \cup {"eip", "esp", "ebp"}, trust |-> "cfi"]
-     [] rule = "fpo" ->
+     [] r = "fpo" ->
           LET ea == f.sp + 4 + g IN
           IF ~Readable(ea) THEN None
           ELSE LET skip == ~hasGrand /\ Rd(ea) = f.ip
@@ -79,7 +83,7 @@ ByCfi(f, k) ==
                ELSE IF ~("ebp" \in f.valid) THEN None
                ELSE [ip |-> Rd(ea2), sp |-> ea2 + 4, bp |-> f.bp, bx |-> f.bx,
                      valid |-> WinFwd(f) \cup {"eip", "esp", "ebp"} \cup (f.valid \cap {"ebx"}), trust |-> "cfi"]       \* documented %ebx pass-through
-     [] rule = "fpo_bp" ->
+     [] r = "fpo_bp" ->
           LET ea == f.sp + 8 + g IN
           IF ~Readable(ea) THEN None
           ELSE LET skip == ~hasGrand /\ Rd(ea) = f.ip
@@ -87,12 +91,20 @@ ByCfi(f, k) ==
                    ba == f.sp + g IN                                   \* callee_esp + grand-callee parameters + saved registers - 8
                IF ~Readable(ea2) \/ ~Readable(ba) THEN None
                ELSE [ip |-> Rd(ea2), sp |-> ea2 + 4, bp |-> Rd(ba), bx |-> f.bx, valid |-> WinFwd(f) \cup {"eip", "esp", "ebp"}, trust |-> "cfi"]
-     [] rule = "cfi" ->
+     [] r = "cfi" ->
           LET cfa == f.sp + 8 IN
           IF ~Readable(cfa - 4) THEN None
           ELSE IF Readable(cfa - 8)
                THEN [ip |-> Rd(cfa - 4), sp |-> cfa, bp |-> Rd(cfa - 8), bx |-> f.bx, valid |-> (Fwd(f) \ {"ebp"}) \cup {"eip", "esp", "ebp"}, trust |-> "cfi"]
                ELSE [ip |-> Rd(cfa - 4), sp |-> cfa, bp |-> f.bp, bx |-> f.bx, valid |-> (Fwd(f) \ {"ebp"}) \cup {"eip", "esp"}, trust |-> "cfi"]
+     [] r = "cfi_big" ->
+          LET cfa == f.sp + 8 IN
+          IF ~Readable(cfa - 4) THEN None
+          ELSE [ip |-> Rd(cfa - 4), sp |-> cfa, bp |-> f.bp, bx |-> f.bx, valid |-> (Fwd(f) \ {"ebx"}) \cup {"eip", "esp"}, trust |-> "cfi"]     \* $ebx: the value does not fit => unknown
+ByCfi(f, k) ==
+  CASE rule = "std_fpo" -> ByRec("win_std", f, k)
+    [] rule = "std_cfi" -> LET w == ByRec("win_std", f, k) IN IF IsNone(w) THEN ByRec("cfi", f, k) ELSE w
+    [] OTHER -> ByRec(rule, f, k)
 ByFp(f) ==
   IF ~("ebp" \in f.valid) THEN None
   ELSE IF ~(Readable(f.bp + 4) /\ Readable(f.bp)) THEN None
@@ -133,7 +145,7 @@ StopRejected == /\ ~done /\ ~IsNone(PickLast) /\ ~Accept(Last, PickLast) /\ done
 StopBound == /\ ~done /\ ~Room /\ Accept(Last, PickLast) /\ done' = TRUE /\ UNCHANGED <<mem, rule, frames, expect>>
 Next == StepCfi \/ StepFp \/ StepScan \/ StopNoFrame \/ StopRejected \/ StopBound
 \* ---- Mode "any"
-Ctx0 == {[ip |-> i, instr |-> i, sp |-> s, bp |-> b, bx |-> 7, valid |-> {"eip", "esp", "ebp", "ebx", "esi", "edi"}, trust |-> "context", psize |-> 0] :
+Ctx0 == {[ip |-> i, instr |-> i, sp |-> s, bp |-> b, bx |-> 7, valid |-> {"eip", "esp", "ebp", "ebx", "esi", "edi", "eax"}, trust |-> "context", psize |-> 0] :
             i \in {A1, A2, A4}, s \in {Base, Base + 4}, b \in {Base, Base + 4, Base + 8, 7}}
 InitAny == /\ mem \in [1..NW -> Vals] /\ rule \in Rules /\ done = FALSE /\ expect = <<>>
            /\ \E c \in Ctx0 : frames = <<[c EXCEPT !.psize = Psize(c.ip, rule)]>>
@@ -206,7 +218,7 @@ InitBuilt == /\ done = FALSE /\ rule \in BuiltRules
                   \* the crash is a few bytes further into the function than any return address (a return address equal to the context's
                   \* eip is what the FPO "leftover return address" heuristic looks for)
                   /\ frames = <<[ip |-> IpOf(ch[1].tech) + 4, instr |-> IpOf(ch[1].tech) + 4, sp |-> Base, bp |-> b.bp0, bx |-> 7,
-                                valid |-> {"eip", "esp", "ebp", "ebx", "esi", "edi"}, trust |-> "context", psize |-> Psize(IpOf(ch[1].tech), rule)]>>
+                                valid |-> {"eip", "esp", "ebp", "ebx", "esi", "edi", "eax"}, trust |-> "context", psize |-> Psize(IpOf(ch[1].tech), rule)]>>
 Init == IF Mode = "any" THEN InitAny ELSE InitBuilt
 Spec == Init /\ [][Next]_vars
 WellFormed ==
